@@ -145,6 +145,10 @@ CLAIMED.update({
                  'the denotation of the text is the tree\'s own graph (treeGraph_tree, mutual induction over the reader\'s '
                  'branch stack), so write-then-read returns the graph with the same keys and the same bonds and orders '
                  '(C07_tree_identity, C07_tree_same_keys, C07_tree_same_bonds); '
+                 'ring-closing edges: for every simple cycle of at least three nodes (any names, every order 0-4 on chain and '
+                 'ring-closing bond, the ring edge handed to the writer in either orientation) the writer model emits '
+                 '{[#n0] oc 1 ... [#nk]1} and the reader model reads it back to exactly the cycle (C07_cycle_roundtrip = '
+                 'writeGraph_cycle: marker allocation and release through the loop + C04_read_ring); '
                  'also for every path graph (any length, all names, all orders 0-4): the writer model '
                  'produces exactly the chain string and the reader model reads it back to the same graph (C07_path_roundtrip = '
                  'writeGraph_path + C04_read_chain); writer and reader symbol tables are mutually inverse on orders 0-4, single '
